@@ -143,10 +143,6 @@ func VerifC14OracleAllocate() {
 		distr.Outstanding[venv.ValAddr(proposer).String()] = out0[proposer]
 	}
 
-	// ---- the step
-	err := k.AllocateTokens(ctx, votes)
-
-	// ---- oracles
 	// total power of the rewarded set (an int64 sum; it cannot wrap under the voting-power bound)
 	var totalPower int64
 	for i := 0; i < nVotes; i++ {
@@ -154,6 +150,22 @@ func VerifC14OracleAllocate() {
 			totalPower += power[i]
 		}
 	}
+	// lemma (proved here, then available to the solver during the step): the truncated power
+	// fractions of the rewarded validators add up to at most 1
+	if totalPower != 0 {
+		fracSum := big.NewInt(0)
+		for i := 0; i < nVotes; i++ {
+			if registered[i] && active[i] {
+				fracSum = new(big.Int).Add(fracSum, c14Frac(power[i], totalPower))
+			}
+		}
+		vs.Assert("lemma-fractions-sum-at-most-one", fracSum.Cmp(c14One18) <= 0)
+	}
+
+	// ---- the step
+	err := k.AllocateTokens(ctx, votes)
+
+	// ---- oracles
 	_ = c14Big
 	vs.Assert("no-error", err == nil)
 	if err != nil {
